@@ -26,7 +26,7 @@ def all_exits_pass(cfg: CFG, starts: List[Node], is_target) -> List:
     for s in starts:
         if is_target(s):
             continue
-        p = cfg.find_path(s.id, _is_exit, blocked=is_target)
+        p = cfg.find_path(s.id, _is_exit, blocked=is_target, edge_ok=cfg.no_cleanup_exc)
         if p is not None:
             bad.append((s, p))
     return bad
